@@ -1,5 +1,6 @@
 import QuantemModel.Lemmas.Dataset
 import QuantemModel.Model.DatasetAbs
+import Mathlib.Tactic.Linarith
 /- C03, growth 6 — helper lemmas for Props/C03Ext.lean: every constructor / setter / operation of
 Model/Dataset.lean commutes with erasing the array values (`DatasetAbs.forget`). -/
 set_option linter.unusedSimpArgs false
@@ -242,5 +243,119 @@ theorem frame_forget (d : Ds) (k : Nat) : frame (forget d) k = mapOk forget (fra
     by_cases hk : k < d.shape.getD 0 0
     · rw [if_pos hk, if_pos hk]; exact getitem_forget d _
     · rw [if_neg hk, if_neg hk]; rfl
+
+/-! ### calls that change nothing -/
+
+theorem padWidths_le {x : Int} {n : Nat} (h : x ≤ n) : padWidths x n = (0, 0) := by
+  simp only [padWidths]
+  have h1 : max 0 ((x - (n : Int)) / 2) = 0 := by omega
+  have h2 : max 0 ((x - (n : Int) + 1) / 2) = 0 := by omega
+  rw [h1, h2]; rfl
+
+theorem padShape_le {o : List Int} {shape : List Nat} (h : List.Forall₂ (fun (x : Int) (n : Nat) => x ≤ n) o shape) :
+    padShape shape (List.zipWith padWidths o shape) = shape := by
+  induction h with
+  | nil => rfl
+  | cons hx _ ih =>
+    simp only [List.zipWith_cons_cons, padShape] at ih ⊢
+    rw [padWidths_le hx, ih]; simp
+
+theorem padShape_zero (shape : List Nat) : padShape shape (List.replicate shape.length (0, 0)) = shape := by
+  induction shape with
+  | nil => rfl
+  | cons n ns ih =>
+    simp only [List.length_cons, List.replicate_succ, padShape, List.zipWith_cons_cons] at ih ⊢
+    rw [ih]; simp
+
+theorem mem_dictSet {β : Type} : ∀ (d : List (Int × β)) (k : Int) (v : β) (p : Int × β),
+    p ∈ dictSet d k v → p ∈ d ∨ p = (k, v)
+  | [], k, v, p, h => by simp [dictSet] at h; exact Or.inr h
+  | (k', v') :: r, k, v, p, h => by
+    simp only [dictSet] at h
+    split at h
+    · simp only [List.mem_cons] at h ⊢
+      rcases h with h | h
+      · exact Or.inr h
+      · exact Or.inl (Or.inr h)
+    · simp only [List.mem_cons] at h ⊢
+      rcases h with h | h
+      · exact Or.inl (Or.inl h)
+      · rcases mem_dictSet r k v p h with h' | h'
+        · exact Or.inl (Or.inr h')
+        · exact Or.inr h'
+
+theorem dictZip_vals {β : Type} (ks : List Int) (vs : List β) : ∀ p ∈ dictZip ks vs, p.2 ∈ vs := by
+  unfold dictZip
+  have key : ∀ (l : List (Int × β)) (acc : List (Int × β)), (∀ q ∈ l, q.2 ∈ vs) → (∀ q ∈ acc, q.2 ∈ vs) →
+      ∀ p ∈ l.foldl (fun d (p : Int × β) => dictSet d p.1 p.2) acc, p.2 ∈ vs := by
+    intro l
+    induction l with
+    | nil => intro acc _ ha p hp; exact ha p hp
+    | cons x xs ih =>
+      intro acc hl ha p hp
+      simp only [List.foldl_cons] at hp
+      refine ih (dictSet acc x.1 x.2) (fun q hq => hl q (by simp [hq])) ?_ p hp
+      intro q hq
+      rcases mem_dictSet acc x.1 x.2 q hq with h | h
+      · exact ha q h
+      · rw [h]; exact hl x (by simp)
+  refine key (ks.zip vs) [] ?_ (by simp)
+  intro q hq
+  exact (List.of_mem_zip hq).2
+
+theorem dictGet_mem {β : Type} : ∀ (d : List (Int × β)) (k : Int) (v : β), dictGet d k = some v → (k, v) ∈ d
+  | [], k, v, h => by simp [dictGet] at h
+  | (k', v') :: r, k, v, h => by
+    simp only [dictGet] at h
+    split at h
+    · rename_i hk; simp at h; subst hk; subst h; simp
+    · exact List.mem_cons_of_mem _ (dictGet_mem r k v h)
+
+theorem facsPerAxis_ones (nd : Nat) (d : List (Int × Int)) (h : ∀ p ∈ d, p.2 = 1) :
+    facsPerAxis nd d = List.replicate nd 1 := by
+  unfold facsPerAxis
+  rw [List.eq_replicate_iff]
+  refine ⟨by simp, ?_⟩
+  intro b hb
+  simp only [List.mem_map, List.mem_range] at hb
+  obtain ⟨ax, _, rfl⟩ := hb
+  cases hg : dictGet d (Int.ofNat ax) with
+  | none => rfl
+  | some v =>
+    have := h _ (dictGet_mem d _ v hg)
+    simp at this
+    simp [this]
+
+theorem binShape_ones (shape : List Nat) : binShape shape (List.replicate shape.length 1) = shape := by
+  induction shape with
+  | nil => rfl
+  | cons n ns ih =>
+    simp only [List.length_cons, List.replicate_succ, binShape, List.zipWith_cons_cons] at ih ⊢
+    rw [ih]; simp
+
+theorem binCalib_ones (o s : List Rat) (d : List (Int × Int)) (h : ∀ p ∈ d, p.2 = 1) : binCalib o s d = (o, s) := by
+  unfold binCalib
+  induction d with
+  | nil => rfl
+  | cons x xs ih =>
+    simp only [List.foldl_cons]
+    have hx : x.2 = 1 := h x (by simp)
+    have h1 : (binMeta (o.getD x.1.toNat 0) (s.getD x.1.toNat 0) x.2.toNat) = (o.getD x.1.toNat 0, s.getD x.1.toNat 0) := by
+      rw [hx]; simp only [binMeta]; congr 1 <;> simp
+    simp only [h1]
+    have e1 : o.set x.1.toNat (o.getD x.1.toNat 0) = o := by
+      apply List.ext_getElem (by simp)
+      intro i h1 h2
+      by_cases hi : x.1.toNat = i
+      · subst hi; simp [List.getD_eq_getElem?_getD, List.getElem?_eq_getElem h2]
+      · simp [List.getElem_set_ne hi]
+    have e2 : s.set x.1.toNat (s.getD x.1.toNat 0) = s := by
+      apply List.ext_getElem (by simp)
+      intro i h1 h2
+      by_cases hi : x.1.toNat = i
+      · subst hi; simp [List.getD_eq_getElem?_getD, List.getElem?_eq_getElem h2]
+      · simp [List.getElem_set_ne hi]
+    simp only [e1, e2]
+    exact ih (fun p hp => h p (by simp [hp]))
 
 end QuantemModel.DatasetAbs
